@@ -380,3 +380,57 @@ func seq(n int) []int {
 	}
 	return s
 }
+
+// GenKindsConfig generates a configuration made only of plain constructors of
+// the static function-value kinds (closures of one factory, method values,
+// generic instantiations) mixed with reflect.MakeFunc ones, many of them with
+// identical signatures, registered under distinct names.
+func GenKindsConfig(t *rapid.T) *Config {
+	cfg := &Config{}
+	id := 0
+	type base struct {
+		argT int
+		life int
+	}
+	var bases []base
+	provFor := map[int][2]int{0: {0, -1}, NumD: {NumD, -1}, TI0: {1, TI0}, TI1: {NumD + 1, TI1}} // arg type -> (concrete T, alias)
+	for _, a := range KindArgTypes {
+		if rapid.IntRange(0, 3).Draw(t, "base") == 0 {
+			continue
+		}
+		pf := provFor[a]
+		r := Reg{ID: id, Life: rapid.IntRange(0, 2).Draw(t, "blife"), Form: FormPlain, Outs: []OutSpec{{T: pf[0], Impl: pf[0]}},
+			Kind: rapid.IntRange(0, 3).Draw(t, "bkind"), HasErr: rapid.Bool().Draw(t, "berr")}
+		if pf[1] >= 0 {
+			r.As = []int{pf[1]}
+		}
+		cfg.Regs = append(cfg.Regs, r)
+		bases = append(bases, base{a, r.Life})
+		id++
+	}
+	n := rapid.IntRange(2, 8).Draw(t, "consumers")
+	for i := 0; i < n; i++ {
+		r := Reg{ID: id, Life: rapid.IntRange(0, 2).Draw(t, "life"), Form: FormPlain, Name: "k" + string(rune('0'+i)),
+			Kind: rapid.IntRange(0, 3).Draw(t, "kind"), HasErr: rapid.IntRange(0, 2).Draw(t, "err") == 0}
+		ty := rapid.SampledFrom(KindTypes).Draw(t, "T")
+		r.Outs = []OutSpec{{T: ty, Impl: ty}}
+		var cands []base
+		for _, b := range bases {
+			if r.Life == Scoped || b.life != Scoped {
+				cands = append(cands, b)
+			}
+		}
+		if len(cands) > 0 && rapid.IntRange(0, 2).Draw(t, "hasdep") != 0 {
+			b := rapid.SampledFrom(cands).Draw(t, "dep")
+			r.Deps = []DepSpec{{T: b.argT}}
+		}
+		cfg.Regs = append(cfg.Regs, r)
+		id++
+	}
+	perm := rapid.Permutation(seq(len(cfg.Regs))).Draw(t, "order")
+	out := &Config{}
+	for _, i := range perm {
+		out.Regs = append(out.Regs, cfg.Regs[i])
+	}
+	return out
+}
